@@ -109,6 +109,7 @@ func (s *Server) Stop() {
 	if up {
 		s.Tr.Emit("EnvStop", s.ID, 0)
 		srv.Stop()
+		s.Tr.Emit("EnvStopped", s.ID, 0)
 	}
 }
 
